@@ -167,6 +167,13 @@ fn fuzz_line_inner(s: &mut S, me: &str) -> (String, String) {
                 };
                 ps.push(v);
             }
+            // now and then the last parameter (a text, comment, reason or topic) is longer than the
+            // advertised 1000-byte limits and made of multi-byte characters at a shifted phase
+            if !ps.is_empty() && s.chance(if ["KICK", "TOPIC", "PART", "AWAY", "QUIT", "KILL", "WALLOPS", "SQUIT"].contains(&verb) { 18 } else { 4 }) {
+                let unit = ["\u{e9}", "\u{65e5}", "a\u{1f600}"][s.pick(3)];
+                let n = ps.len();
+                ps[n - 1] = format!("{}{}", long(s.pick(5), 'a'), unit.repeat(1200 / unit.len()));
+            }
             let mut l = verb.to_string();
             for (i, p) in ps.iter().enumerate() {
                 l.push(' ');
